@@ -470,7 +470,8 @@ where
         self.validate()?;
 
         let packet_id_buf = self.packet_id_buf.unwrap();
-        let remaining_length = VariableByteInteger::from_u32(2).unwrap(); // packet_id(2)
+        let remaining_length =
+            VariableByteInteger::from_u32(mem::size_of::<PacketIdType>() as u32).unwrap(); // packet_id
 
         Ok(GenericUnsuback {
             fixed_header: [FixedHeader::Unsuback.as_u8()],
